@@ -197,6 +197,11 @@ def class_method(eng, cls, attr, recv):
     return V(FN, ('libm', '%s.%s' % (cls, attr), recv, fn))
 
 
+def await_value(eng, st, v, line):
+    """`await v` for a library awaitable that is not a coroutine (set by lib_rt)."""
+    yield st, v
+
+
 OPAQUE_ATTR = {}     # (opaque type name, attribute) -> fn(eng, st, o) -> V  (data attributes)
 OPAQUE_CALL = {}     # opaque type name -> fn(eng, st, f, args, kwargs, line)
 app_call1 = z3.Function('app_call1', I, PV, PV)
